@@ -330,6 +330,7 @@ class Driver:
         self.finished = []     # terminal states
         self.inline_depth = 0
         self.main_loop = None
+        self.isave_name = "isave"
 
     # ------------------------------------------------------------------ statements
     def block(self, stmts, states, func):
@@ -401,12 +402,15 @@ class Driver:
                 return [s]
             return self.while_loop(st, s, func)
         if isinstance(st, ast.For):
-            if _effect_free(st.body) or _flush_loop(st):
+            if _effect_free(st.body) or _flush_loop(st, s):
                 return [s]
             raise AnalysisError("%s:%d unsupported for loop" % (func.qualname, st.lineno))
         raise AnalysisError("%s:%d unsupported statement %s" % (func.qualname, st.lineno, type(st).__name__))
 
-    def while_loop(self, st, s, func, unroll=UNROLL):
+    def while_loop(self, st, s, func, unroll=None):
+        import os
+        if unroll is None:
+            unroll = UNROLL + 1 if os.environ.get("FDCHECK_TIER") == "thorough" else UNROLL
         """bounded unrolling: exits after 0..unroll iterations"""
         out = []
         cur = [s]
@@ -909,7 +913,7 @@ class Driver:
                     qn_time=qn.time if isinstance(qn, FieldObj) else None,
                     qn_id=qn.id if isinstance(qn, FieldObj) else None,
                     qn_it=qn.it if isinstance(qn, FieldObj) else None,
-                    isave=s.env.get("isave"), cons=list(s.cons))
+                    isave=s.env.get(self.isave_name), cons=list(s.cons))
 
     def call_opaque(self, f, args, kw, s, func, node):
         n = f.name
@@ -1084,17 +1088,25 @@ def _effect_free(stmts):
     return True
 
 
-def _flush_loop(st):
-    """the optional data-dump loop: stores only into the local dump list `alldata`"""
+def _flush_loop(st, state):
+    """a loop that only stores into elements of an untracked local container (the optional data
+    dump): no effect on the tracked state"""
     for n in ast.walk(st):
         if isinstance(n, (ast.Assign, ast.AugAssign)):
             ts = n.targets if isinstance(n, ast.Assign) else [n.target]
             for t in ts:
                 base = t
+                depth = 0
                 while isinstance(base, ast.Subscript):
                     base = base.value
-                if not (isinstance(base, ast.Name) and base.id == "alldata"):
+                    depth += 1
+                if not (isinstance(base, ast.Name) and depth >= 1):
                     return False
-        if isinstance(n, ast.Call) and isinstance(n.func, ast.Attribute) and n.func.attr in ("step", "append", "add_res", "set"):
+                v = state.env.get(base.id)
+                if isinstance(v, (FieldObj, ListObj)) or v is None:
+                    return False
+        if isinstance(n, ast.Call) and isinstance(n.func, ast.Attribute) and n.func.attr in ("step", "append", "add_res", "set", "copy", "extend"):
+            return False
+        if isinstance(n, ast.Attribute) and isinstance(n.ctx, ast.Store):
             return False
     return True
